@@ -156,6 +156,11 @@ FIXED += [
      c06("program p\n10 format (e)\n20 format (2(g), a)\nend program p\n")),
 ]
 
+FIXED += [
+    ("C01", "rejected:function", "b4bd4ba", "'type(function_x) function f(a)': the first occurrence of FUNCTION in the line (inside the type name) was taken for the keyword and the valid statement rejected",
+     {"mode": "source", "std": "f2008", "ic": True, "text": "type(function_x) function ze67(a) result(y)\nend function ze67\ntype(xfunction) function g()\nend function g\n"}),
+]
+
 OPEN = [
     ("C03", "defined-binary-op-with-dotted-right", "a defined binary operator with a dotted operator or logical literal to its right at the same parenthesis level is not parsed (Expr.match splits at the right-most .word. and gives up if that one is intrinsic)",
      {"mode": "expr", "text": "a .x. b .and. c", "expected": "(a.x.(b.and.c))", "context": "expr", "known": True}),
